@@ -178,6 +178,9 @@ def run_unit(unit, progress):
             tripped = []
             if True:
                 rt.step_probes.append(M.active_task_probe)
+                rt.ctx_probes.append(lambda rt_, ctx, what: M.stale_active_probe(rt_, "context " + what))
+                rt.flush_probes.append(lambda rt_, b, items: M.stale_active_probe(rt_, "flush body"))
+                rt.provider_probes.append(lambda rt_: M.stale_active_probe(rt_, "value provider"))
 
                 def after_sync(rt_, fr, ok):
                     rt_.n_after_sync = getattr(rt_, "n_after_sync", 0) + 1
@@ -202,6 +205,7 @@ def run_unit(unit, progress):
                 asynq.debug.options.DUMP_PRE_ERROR_STATE = old_dump
             res["evaluations"] += 1
             tl.harvest(rt, c)
+            inc("active_task_checks_in_scheduler_run_code", getattr(rt, "n_stale_active_checks", 0))
             inc("after_sync_checks", getattr(rt, "n_after_sync", 0))
             inc("sync_waits_on_a_task_created_elsewhere", sum(1 for ev in rt.log if ev[0] == "sync_enter" and ev[2][:1] == ("S",)))
             history.append({"program": prog, "opts": opts, "how": how, "outcome": tl.short(out[:2], 160)})
